@@ -185,7 +185,7 @@ func runFixtures(f lib.Flags, res *lib.Result, drv *lib.Driver) {
 	for i := range cases {
 		lines[i] = cases[i].line
 	}
-	outs, err := drv.AskAll(lines)
+	outs, err := askAllDeadline(drv, lines)
 	if err != nil {
 		res.Fatalf("driver (fixtures): %v", err)
 		return
